@@ -28,6 +28,56 @@ for path, clsname in (("breezy/bzr/transform.py", "TreeTransformBase"), ("breezy
            canary=lambda c: Not(c.g.clean))
 cls("TreeTransformBase", fields={})
 
+# ---- raw conflict detection, duplicate names (block: the scan over the sorted (name, trans_id) pairs of one directory).
+#      An entry OCCUPIES its name if it has content in the end or is still versioned (either puts something at that path in the preview
+#      and in the applied tree). Specification (recursive over the sorted list, instances stated at the loop position):
+#        LastOcc(s, i): the last occupying entry among the first i;   Dups(s, i): how many duplicates are reported for the first i:
+#        one for every occupying entry whose name equals that of the occupying entry before it.
+NI = Seq(Tup(STR, STR))
+KindOf = ufunc("KindOf", STR, Opt(STR))        # final_kind(trans_id)
+Versioned = ufunc("Versioned", STR, BOOL)      # final_is_versioned(trans_id)
+LastOcc = ufunc("LastOcc", NI, INT, Opt(Tup(STR, STR)))
+Dups = ufunc("Dups", NI, INT, INT)
+assume_note("LastOcc / Dups are defined by recursion over the list prefix (definition; instances at the loop position are assumed as hints)")
+for _p in ("breezy/bzr/transform.py", "breezy/git/transform.py"):
+    pass
+assumed("self.final_kind", pure=True, returns=lambda c: KindOf(c.args[0]), raises={"Exception": None})
+assumed("self.final_is_versioned", pure=True, returns=lambda c: Versioned(c.args[0]), raises={"Exception": None})
+
+
+def occupies(tid):
+    return Or(Not(KindOf(tid).is_none), Versioned(tid))
+
+
+def dup_defs(s, i):
+    e = s[i]
+    lo = LastOcc(s, i)
+    return And(LastOcc(s, 0).is_none, Dups(s, 0) == 0,
+               Implies(And(0 <= i, i < Len(s)), And(
+                   LastOcc(s, i + 1) == If(occupies(e[1]), Opt(Tup(STR, STR)).some(e), lo),
+                   Dups(s, i + 1) == Dups(s, i) + If(And(occupies(e[1]), Not(lo.is_none), lo.val[0] == e[0]), 1, 0))))
+
+
+def scan_state(c, i):
+    lo = LastOcc(c.name_ids, i)
+    return And(c.name_ids == c.old.name_ids, Len(c.g.yielded) == Len(c.old.g.yielded) + Dups(c.name_ids, i),
+               If(lo.is_none, And(c.last_name.is_none, c.last_trans_id.is_none),
+                  And(Not(c.last_name.is_none), Not(c.last_trans_id.is_none), c.last_name.val == lo.val[0], c.last_trans_id.val == lo.val[1])))
+
+
+for path in ("breezy/bzr/transform.py", "breezy/git/transform.py"):
+    target("%s::TreeTransformBase._duplicate_entries" % path, cls="TreeTransformBase",
+           block=(r"^\s*last_name = None", r"^\s*for name, trans_id in name_ids"),
+           params=dict(name_ids=NI, by_parent=ANY, children=ANY), locals=dict(last_name=Opt(STR), last_trans_id=Opt(STR), kind=Opt(STR)),
+           generator=Tup(STR, Opt(STR), STR, STR),
+           loops={3: loop(r"for name, trans_id in name_ids", index="i", inv=lambda c: scan_state(c, c.i),
+                          hints=lambda c: dup_defs(c.name_ids, c.i))},
+           ensures={"one_duplicate_per_occupying_entry_named_like_the_occupying_entry_before_it": lambda c:
+                    Len(c.g.yielded) == Len(c.old.g.yielded) + Dups(c.old.name_ids, Len(c.old.name_ids))},
+           raises={"Exception": True},
+           canary=lambda c: Len(c.g.yielded) == Len(c.old.g.yielded),
+           note="block: an entry that is versioned or has content occupies its name; two occupying entries with one name are a conflict")
+
 undecided("that the preview tree of a transform equals the tree after apply (tree comparison over external inventories / indices)")
 undecided("the ordering 'malformed check before the first file-system effect' is an obligation of TreeTransform.apply, discharged in the C13 check "
           "(ensures[conflicts_checked_before_anything_is_touched])")
